@@ -69,6 +69,9 @@ SPEC = {
             'harness_files': {EP: 'harness/endpoint.rs'},
             'harnesses': [
                 {'name': 'c19_rl_sleep_duration_n1', 'file': EP, 'timeout': 900, 'bounds': 'number=1, period any u64 seconds', 'asserts': 'get_sleep_duration: no panic, result within [MIN,MAX]'},
+                {'name': 'c19_rl_sleep_duration_n_2p32', 'file': EP, 'timeout': 900, 'bounds': 'number=2^32, period any u64 seconds', 'asserts': 'get_sleep_duration: no panic, result within [MIN,MAX]'},
+                {'name': 'c19_rl_sleep_duration_n_max', 'file': EP, 'timeout': 900, 'bounds': 'number=usize::MAX, period any u64 seconds', 'asserts': 'get_sleep_duration: no panic, result within [MIN,MAX]'},
+                {'name': 'c19_rl_sleep_duration_n_shifted', 'file': EP, 'timeout': 900, 'bounds': 'number = 2^k for every k in 0..63, period 2 s', 'asserts': 'get_sleep_duration: no panic, result within [MIN,MAX]'},
                 {'name': 'c19_rl_sleep_duration_n7', 'file': EP, 'timeout': 900, 'bounds': 'number=7, period any u64 seconds', 'asserts': 'get_sleep_duration: no panic, result within [MIN,MAX]'},
             ],
         },
